@@ -251,6 +251,8 @@ def roots(tier, seed):
                 c["dev"] = [["obj", 1, "nan"]]
                 c["explore"] = 0
                 out.append(c)
+    from .. import cover
+    out += cover.roots_for(tier, linear_ok=False)
     return alpha.permute(out, seed)
 
 
